@@ -8,7 +8,7 @@ import gen_scripts as G
 PROP_FILES = ["Properties/C16.v"]
 RULE = ("session prefixes (k steps into grammar-generated scripts, incl. inside IF branches, with alt-stack content, under random flag sets and "
         "script versions) followed by exec of 1..5 tokens (opcode names with/without OP_, small integers, canonical decimals, hex pushes, "
-        "invalid tokens, tokens raising exceptions); after exec: full state dump (stack, alt, cond, pc, script, position) vs model; "
+        "invalid tokens, tokens raising exceptions), in 45% of the sessions several exec lines in a row (earlier ones refused half-way or ended by an exception); after exec: full state dump (stack, alt, cond, pc, script, position) vs model; "
         "impl-only relation: exec ops == appending ops to the executed prefix. non-trivial = exec list contains a non-push operation")
 
 NAMES = ["OP_DUP", "DUP", "OP_ADD", "SUB", "OP_SWAP", "OP_IF", "OP_ELSE", "OP_ENDIF", "OP_TOALTSTACK", "OP_FROMALTSTACK", "OP_1", "OP_0", "OP_16",
@@ -40,6 +40,18 @@ def gen(chk):
         fl = G.rand_flags(rng)
         sv = rng.choice((0, 1, 3))
         cmds = ["s"] * k + ["e:" + "+".join(tok_hex(t) for t in toks)]
+        # state carried from one exec to the next: a second / third exec line, the earlier one often refused half-way (valid tokens, then an
+        # invalid one) or ended by an exception
+        r2 = rng.random()
+        if r2 < 0.45:
+            def line():
+                ts = [rng.choice(NAMES) if rng.random() < 0.6 else rng.choice(NUMS + HEXES) for _ in range(rng.choice([1, 2, 3]))]
+                if rng.random() < 0.35: ts.append(rng.choice(["OP_FOO", "zz", "OP_NOTANOP", "0102030405 OP_1ADD".split()[0], "g1"]))
+                if rng.random() < 0.2: ts += ["0102030405", "OP_1ADD"]
+                return "e:" + "+".join(tok_hex(t) for t in ts)
+            if r2 < 0.2:
+                cmds = ["s"] * k + [line()] + cmds[k:]          # a (possibly refused) exec BEFORE the one under test
+            cmds += [line() for _ in range(rng.choice([1, 1, 2]))]
         if rng.random() < 0.5:
             cmds += ["s"]          # the script continues from where it was
         if rng.random() < 0.2:
